@@ -17,7 +17,9 @@ FUNCTIONS = [
     "jsonargparse._actions._ActionSubCommands.get_subcommands (required subcommand)",
 ]
 
-FOREIGN_POSITIONS = ["", "g", "dc", "m", "m.init_args", "ld.0", "fit", "od", "dd.k"]
+FOREIGN_POSITIONS = ["", "g", "dc", "m", "m.init_args", "ld.0", "fit", "od", "dd.k", "nd"]
+# the foreign key is either unrelated ('zz') or a truncated sibling name (a proper string prefix of a key defined at that position)
+FOREIGN_NAMES = {"": ["zz", "num"], "g": ["zz", "cou"], "m.init_args": ["zz", "hidden"], "fit": ["zz", "max"], "nd": ["zz", "size"]}
 FOREIGN_KINDS = ["int", "none", "dict", "str"]
 REQUIRED_KEYS = ["a", "g.b", "dc.a", "m.init_args.w", "ld.0.a", "fit.x", "subcommand+fit", "m", "od.a", "dd.k.a"]
 REMOVAL_KINDS = ["removed", "none"]
@@ -34,8 +36,13 @@ def _parser():
     p = ArgumentParser(exit_on_error=False, prog="app")
     p.add_argument("--cfg", action=ActionConfigFile)
     p.add_argument("--a", type=int, required=True)
+    p.add_argument("--num_workers", type=int, default=0)
     p.add_argument("--g.b", type=int, required=True)
     p.add_argument("--g.c", type=int, default=1)
+    p.add_argument("--g.count", type=int, default=1)
+    from ..fixtures import Named
+
+    p.add_argument("--nd", type=Named, default=Named())
     p.add_argument("--dc", type=Req)
     p.add_argument("--m", type=Base, required=True)
     p.add_argument("--ld", type=List[Req], default=[])
@@ -44,6 +51,7 @@ def _parser():
     fit = ArgumentParser(exit_on_error=False)
     fit.add_argument("--x", type=int, required=True)
     fit.add_argument("--y", type=int, default=1)
+    fit.add_argument("--max_epochs", type=int, default=1)
     test = ArgumentParser(exit_on_error=False)
     test.add_argument("--z", type=int, default=1)
     sc = p.add_subcommands(required=True)
@@ -55,7 +63,7 @@ def _parser():
 def _valid():
     # (sections keep a second key so that removing the required one does not leave an empty mapping, which Optional[...] reads as None)
     return {"a": 1, "g": {"b": 2, "c": 9}, "dc": {"a": 3, "b": 1.5}, "m": {"class_path": "vf.fixtures.NeedsW", "init_args": {"w": 4, "t": 1.5}}, "ld": [{"a": 5, "b": 1.5}],
-            "od": {"a": 7, "b": 1.5}, "dd": {"k": {"a": 8, "b": 1.5}}, "subcommand": "fit", "fit": {"x": 6, "y": 2}}
+            "od": {"a": 7, "b": 1.5}, "dd": {"k": {"a": 8, "b": 1.5}}, "subcommand": "fit", "fit": {"x": 6, "y": 2}, "nd": {"size_total": 2, "label": "m"}}
 
 
 def _node(obj, path):
@@ -81,7 +89,7 @@ def _call(channel, obj):
 
             def to_ns(o):
                 if isinstance(o, dict) and "class_path" not in o:
-                    return Namespace(**{k: (to_ns(v) if isinstance(v, dict) and k in ("g", "fit", "test", "dc") else v) for k, v in o.items()})
+                    return Namespace(**{k: (to_ns(v) if isinstance(v, dict) and k in ("g", "fit", "test", "dc", "nd") else v) for k, v in o.items()})
                 return o
 
             cfg = p.parse_object(_valid())
@@ -90,7 +98,7 @@ def _call(channel, obj):
                 if k not in vars(tampered):
                     del cfg[k]
             for k, v in vars(tampered).items():
-                if k in ("g", "fit", "dc") and isinstance(v, Namespace):
+                if k in ("g", "fit", "dc", "nd") and isinstance(v, Namespace):
                     for kk in list(vars(cfg[k])):
                         if kk not in vars(v):
                             del cfg[k][kk]
@@ -138,24 +146,26 @@ def _call(channel, obj):
         return "error", str(ex)
 
 
-def _foreign_once(pos, kind, channel):
+def _foreign_once(pos, kind, channel, name="zz"):
     obj = _valid()
     node = _node(obj, pos)
-    node["zz"] = {"int": 5, "none": None, "dict": {"q": 1}, "str": "v"}[kind]
+    node[name] = {"int": 5, "none": None, "dict": {"q": 1}, "str": "v"}[kind]
     if channel in ("argv", "env") and pos == "":
         # a foreign top-level key is an unknown option / an environment variable nobody reads: argv must reject, env has nothing to reject
         if channel == "env":
             return None
     if channel == "env" and pos in ("g", "fit"):
         return None  # environment variables that no argument reads are not an input of the parser
-    if channel == "validate" and pos not in ("", "g", "fit", "dc"):
+    if channel == "argv" and name != "zz" and pos in ("", "g", "fit"):
+        return None  # on the command line a unique prefix of an option name is argparse's documented abbreviation of that option
+    if channel == "validate" and pos not in ("", "g", "fit", "dc", "nd"):
         return None  # (validate channel: only the namespace levels are tampered with)
     status, res = _call(channel, obj)
     S.note("foreign")
     if status == "ok":
-        return Fail("foreign-key:accepted", position=pos, value_kind=kind, channel=channel)
-    if "zz" not in res:
-        return Fail("foreign-key:error-does-not-name-the-key", position=pos, value_kind=kind, channel=channel, message=res[:300])
+        return Fail("foreign-key:accepted", position=pos, value_kind=kind, channel=channel, name=name)
+    if name not in res:
+        return Fail("foreign-key:error-does-not-name-the-key", position=pos, value_kind=kind, channel=channel, name=name, message=res[:300])
     return True
 
 
@@ -197,7 +207,8 @@ def tamper():
         if S.flag("foreign"):
             pos = S.pick("position", FOREIGN_POSITIONS)
             kind = S.pick("value_kind", FOREIGN_KINDS)
-            args = ("f", pos, kind, channel)
+            name = S.pick("foreign_name", FOREIGN_NAMES.get(pos, ["zz"]))
+            args = ("f", pos, kind, channel, name)
         else:
             key = S.pick("required_key", REQUIRED_KEYS)
             how = S.pick("how", REMOVAL_KINDS)
@@ -263,7 +274,7 @@ def main(rep, tier):
     for cls, samples in fails.items():
         for smp in samples:
             i = smp["info"]
-            groups.setdefault((cls, i.get("position", i.get("key", "")), i.get("channel", ""), i.get("how", i.get("value_kind", ""))), []).append(smp)
+            groups.setdefault((cls, i.get("position", i.get("key", "")), i.get("channel", ""), i.get("how", i.get("value_kind", "")) + i.get("name", "")), []).append(smp)
     for (cls, where, channel, how), samples in groups.items():
         smp = samples[0]
         payload = dict(module="c06", func=smp["harness"], kwargs=smp["kwargs"], ordered=smp["values"].get("__order__", []))
